@@ -36,6 +36,12 @@ def conc_name(name, v):
     return '/'.join(conc_str(c, v) for c in name)
 
 
+def comps_of(text):
+    """slash-separated text -> sequence of components, each a sequence of one-character strings
+    (control characters are written ^hh so that the trace file stays printable)"""
+    return [[c if ' ' <= c else '^%02x' % ord(c) for c in comp] for comp in text.split('/')]
+
+
 def plain_objs(objs):
     """model state -> JSON-friendly {bucket: {name: data}}"""
     out = {}
@@ -95,6 +101,10 @@ def run(ctx):
         'listing order is not part of the property: results are compared as sets, duplicates are reported',
         'an object is written in one of three ways: Write calls (two halves; two empty Writes for empty data), NewWriter+Close with no Write call '
         '(empty data only), storage.Copy from a source object in another FS bucket; the result must be the same',
+        'constructed names: the handlers of telemetrygodev (/, /charts/, /data/, /upload/) are served over recording BucketHandles on the routes of '
+        'newHandler rebuilt by the harness; a name is judged only if newHandler answers the same request with the same status; worker handlers '
+        '(merge, chart, copy) take the recording buckets directly; resolution is lexical (no symbolic links in the storage root); listing prefixes '
+        'are logged but not judged (a prefix filters names, it is never resolved as a path); on this platform a backslash is an ordinary character',
         'service names: the upload name is observed through the real upload handler chain, merge and chart names through the real worker '
         'handlers; only the location of what they create is decided here (C12 / C13 decide the rest)',
     ]
@@ -184,6 +194,22 @@ def run(ctx):
     ctx.cov['distinct_nontrivial'] = len(behs) + summ['histories'] + ctx.cov.get('service_requests', 0)
 
 
+# request targets for the pages of telemetrygodev; {charted} {merged} {uploaded} are replaced by the bucket names
+PAGE_TARGETS = [
+    '/', '/charts/', '/data/', '/charts/2024-03-11', '/charts/2024-03-12', '/charts/2024-03-11_2024-03-17', '/charts/x',
+    '/charts/..%2F{merged}%2F2024-03-11', '/charts/%2e%2e%2f{merged}%2f2024-03-11', '/charts/%2e%2e/{merged}/2024-03-11',
+    '/charts/..%2Fsentinel', '/charts/..%2F..%2Foutside', '/charts/%2E%2E%2F%2E%2E%2F%2E%2E%2F%2E%2E%2Fetc%2Fpasswd',
+    '/charts/a%2F..%2F..%2F{merged}%2F2024-03-11', '/charts/a%2F%2F..%2F..%2F{merged}%2F2024-03-11', '/charts/2024-03-11%2F..%2F..%2Fsentinel',
+    '/charts/..%2F{charted}%2F2024-03-11',                       # leaves and re-enters its own directory: resolves inside
+    '/charts/.%2F2024-03-11', '/charts/a%2F..%2F2024-03-11',       # inside
+    '/charts/..%5C{merged}%5C2024-03-11', '/charts/..%5C..%5Coutside', '/charts/%2Fetc%2Fpasswd', '/charts/%2F%2F{merged}%2F2024-03-11',
+    '/charts/2024-03-11%00', '/charts/..%2F{merged}%2F2024-03-11%00', '/charts/%00..%2Fx', '/charts/..', '/charts/.', '/charts/%2e%2e',
+    '/charts/..%2F', '/charts/%2F', '/charts/2024-03-11%3Fx', '/charts/..%252F{merged}%252F2024-03-11', '/charts/%c0%ae%c0%ae%2fx',
+    '/charts/../{merged}/2024-03-11', '/charts//2024-03-11', '/charts/./2024-03-11',
+    '/data/..%2Fx', '/data/2024-03-11', '/data/%2e%2e%2f{uploaded}', '/data/..%5Cx',
+    '/..%2Froot', '/charts', '/%2e%2e/charts/..%2Fsentinel',
+]
+
 HOSTILE_DATES = ['../x', '../../x', '2023-01-01/../../x', '/tmp/c18-x', '2023-01-01/../x', '', '.', '..', '2023-1-1', '2023-01-01x',
                  '2023/01/01', '..%2fx', '2023-02-30', '2023-13-01', ' 2023-01-01', '2023-01-01\x00', '2023-01-01/', 'x/../../../y']
 VALID_DATES = ['2023-01-01', '2024-02-29', '1999-12-31', '2023-01-07']
@@ -203,7 +229,11 @@ def service_names(ctx):
     reqs.append({'svc': 'merge', 'query': {'date': '2023-01-02'}})
     reqs.append({'svc': 'merge', 'query': {'date': '2023-01-03'}})
     reqs.append({'svc': 'chart', 'query': {'start': '2023-01-01', 'end': '2023-01-03'}})
+    for q in ({'date': '2023-01-05'}, {'start': '2023-01-04', 'end': '2023-01-06'}, {'date': '../x'}, {'start': '2023-01-05', 'end': '../../x'},
+              {'start': '2023-01-05/../..', 'end': '2023-01-06'}):
+        reqs.append({'svc': 'copy', 'query': q})
     recs, rc, out = ctx.run_harness('./cmd/worker', 'TestVerifC18Worker', inp={'requests': reqs}, module_dir='godev', timeout=900)
+    wrecs = recs
     summ = gu.summary_of(recs, out, 'C18 worker')
     created = 0
     for m in recs:
@@ -241,4 +271,63 @@ def service_names(ctx):
         raise Infra('C18 upload harness: no object stored (vacuous)')
     ctx.cov['service_requests'] += len(steps)
     ctx.cov['service_objects_created'] += nup
+
+    # ---- names the handlers construct from request input (read and write side) ----
+    gu.inject_files(ctx, 'godev/cmd/telemetrygodev', ['c18_names_verif_test.go'])
+    import base64
+    reqs = [{'method': 'GET', 'target': t} for t in PAGE_TARGETS]
+    reqs += [{'method': 'HEAD', 'target': '/charts/..%2F{merged}%2F2024-03-11'}, {'method': 'POST', 'target': '/charts/..%2Fsentinel'}]
+    for st in steps[::5]:
+        reqs.append({'method': 'POST', 'target': '/upload/', 'body64': st['body64']})
+    precs, rc, out = ctx.run_harness('./cmd/telemetrygodev', 'TestVerifC18Names',
+                                     inp={'config64': base64.b64encode(json.dumps(c12.config_json()).encode()).decode(), 'requests': reqs},
+                                     module_dir='godev', timeout=900)
+    psumm = gu.summary_of(precs, out, 'C18 names')
+    preq = {m['i']: m for m in precs if m.get('kind') == 'req'}
+    names = [m for m in wrecs if m.get('kind') == 'name'] + [m for m in precs if m.get('kind') == 'name']
+    objs = [m for m in names if m.get('call') == 'Object']
+    if not objs or not any(m['svc'] == 'telemetrygodev' and m['bucket'] == 'chart' for m in objs):
+        raise Infra('C18 names: the recording buckets saw no constructed name (vacuous)')
+    for m in precs:
+        if m.get('kind') == 'req' and (m.get('panic') or m.get('real_panic')):
+            ctx.violation('C18:confine:page-panic', m, 'telemetrygodev %s %s: panic %s' % (m['method'], m['target'], m.get('panic') or m.get('real_panic')))
+    trace = [{'base': comps_of(m['base'].lstrip('/')), 'name': comps_of(m['name'])} for m in objs]
+    r = ctx.tlc('StorageNames', files={'c18names.ndjson': ndjson_text(trace)}, workers=1, label='StorageNames', count=False, timeout=900)
+    badidx = []
+    if r.error == 'invariant' and r.error_name == 'AllInside':
+        stt = r.trace[-1][1] if r.trace else {}
+        badidx = stt.get('bad') or []
+        if not badidx:
+            raise Infra('StorageNames: cannot locate the rejected records\n' + r.out[-2000:])
+    elif not r.ok:
+        raise Infra('StorageNames: %s %s\n%s' % (r.error, r.error_name, r.out[-2500:]))
+    ndiv = 0
+    for idx in badidx:
+        m = objs[idx - 1]
+        if m['svc'] == 'worker':
+            ctx.violation('C18:confine:worker-%s-name-outside-bucket' % m['handler'], m,
+                          'worker %s service, request %s: constructs object name %r for its %s bucket, which resolves outside %s' % (
+                              m['handler'], m['req'], m['name'], m['bucket'], m['base']))
+            continue
+        rq = preq.get(m['i'], {})
+        if rq.get('status') != rq.get('real_status'):
+            # the routes rebuilt by the harness and newHandler disagree on this request: not evidence about the real chain
+            ndiv += 1
+            ctx.warn('C18 names: harness routes answer %s, newHandler answers %s for %s; name %r not judged' % (
+                rq.get('status'), rq.get('real_status'), m['req'], m['name']))
+            continue
+        target = m['req'].split(' ', 1)[1]
+        page = 'charts-page' if target.startswith('/charts/') else 'data-page' if target.startswith('/data/') else 'upload' if target.startswith('/upload/') else 'root-page'
+        what = 'reads' if page != 'upload' else 'writes'
+        ctx.violation('C18:confine:%s-%s-outside-bucket' % (page, what), dict(m, request=rq),
+                      'telemetrygodev %s (status %s%s): the handler constructs object name %r for the %s bucket, which resolves outside %s' % (
+                          m['req'], rq.get('real_status'), ', content of a file outside the bucket served' if rq.get('decoy_served') else '',
+                          m['name'], m['bucket'], m['base']))
+    ctx.cov['divergences'] += ndiv
+    ctx.cov['service_requests'] += psumm['requests']
+    ctx.cov['constructed_names_checked'] = len(objs)
+    ctx.cov['listing_prefixes_seen'] = len(names) - len(objs)
+    ctx.cov['traces_validated_against_impl'] += len(objs) - len(badidx)
+    hostile = [m for m in objs if '..' in m['name'] or m['name'].startswith('/')]
+    ctx.sample({'kind': 'constructed-name', 'request': (hostile or objs)[0]['req'], 'bucket': (hostile or objs)[0]['bucket'], 'name': (hostile or objs)[0]['name']})
     ctx.cov['evaluations'] += ctx.cov['service_requests']
